@@ -734,8 +734,9 @@ fn exec(case: &[String], out: &mut Out) {
 
 /// `!oracle static_fault …` for every fault in the trace, classified by the inputs of the case
 /// (`shape=`): the defects that the in-domain hypotheses of the theorems exclude.
-fn fault_oracles(ops: &[String], trace: &[String]) -> Vec<String> {
+fn fault_oracles(ops: &[String], trace: &[String]) -> Vec<(usize, String)> {
 	let mut res = vec![];
+	let mut case_no = 0usize;
 	let ops: Vec<&String> = ops
 		.iter()
 		.filter(|l| !l.trim().is_empty() && !l.starts_with('#'))
@@ -763,7 +764,10 @@ fn fault_oracles(ops: &[String], trace: &[String]) -> Vec<String> {
 			})
 		};
 		match tok[0] {
-			"case" => shape = "in_domain".to_string(),
+			"case" => {
+				shape = "in_domain".to_string();
+				case_no += 1;
+			}
 			"new" => {
 				sr = pu(tok[1]) as u32;
 				let len = pu(tok[2]) as usize;
@@ -801,16 +805,16 @@ fn fault_oracles(ops: &[String], trace: &[String]) -> Vec<String> {
 			_ => {}
 		}
 		if let Some(kind) = l.strip_prefix("fault ") {
-			res.push(format!("!oracle static_fault kind={} shape={} op={}", kind, shape, ops[i]));
+			res.push((case_no, format!("!oracle static_fault kind={} shape={} op={}", kind, shape, ops[i])));
 		}
 	}
 	res
 }
 
 pub fn run(ops: &[String]) -> Vec<String> {
-	let mut trace = run_cases(ops, Some(Duration::from_millis(4000)), exec);
+	let trace = run_cases(ops, Some(Duration::from_millis(4000)), exec);
 	let extra = fault_oracles(ops, &trace);
-	trace.extend(extra);
+	let trace = crate::suites::transport::insert_after_cases(trace, extra);
 	if std::env::var("KV_ORACLE_STATS").is_ok() {
 		for (i, n) in CHECK_NAMES.iter().enumerate() {
 			eprintln!("oracle-premise {} {}", n, CHECKS[i].load(Ordering::Relaxed));
